@@ -244,15 +244,14 @@ fn set1(n: &'static str) -> MinidumpContextValidity {
     MinidumpContextValidity::Some(s)
 }
 
-/// One register name against the architecture table.
+/// One register name against the architecture table: slot, frame condition, memoize, validity All.
+/// (No heap objects: several names can share a harness.)
 pub fn check_name<C, const K: usize>(
     c: &mut C,
     slots: fn(&C) -> [u64; K],
-    wrap: fn(C) -> MinidumpRawContext,
     name: &'static str,
     slot: usize,
     canon: &'static str,
-    other: &'static str,
     strong: bool,
     v: C::Register,
 ) where
@@ -279,26 +278,40 @@ pub fn check_name<C, const K: usize>(
         assert!(c.memoize_register(name) == Some(canon));
         let all = MinidumpContextValidity::All;
         assert!(c.get_register(name, &all) == Some(v));
-        let empty = MinidumpContextValidity::Some(VecSet::new());
-        assert!(c.get_register(name, &empty).is_none());
-        let vc = set1(canon);
-        assert!(c.get_register(name, &vc) == Some(v));
-        assert!(c.get_register(canon, &vc) == Some(v));
-        let vn = set1(name);
-        assert!(c.get_register(name, &vn) == Some(v));
-        assert!(c.get_register(canon, &vn) == Some(v));
-        let vo = set1(other);
-        assert!(c.get_register(name, &vo).is_none());
-        // the type-erased dispatcher agrees
-        let mc = MinidumpContext { raw: wrap(c.clone()), valid: vc };
-        assert!(mc.get_register(name) == Some(v.into()));
-        assert!(mc.get_register(other).is_none());
-        assert!(mc.get_register_always(name) == v.into());
-        std::mem::forget(mc);
-        std::mem::forget(vn);
-        std::mem::forget(vo);
-        std::mem::forget(empty);
     }
+}
+
+/// Validity sets for one name: {} / {canonical} / {name} / {unrelated}, and the type-erased dispatcher.
+pub fn check_name_validity<C>(
+    c: &C,
+    wrap: fn(C) -> MinidumpRawContext,
+    name: &'static str,
+    canon: &'static str,
+    other: &'static str,
+) where
+    C: CpuContext + Clone,
+    C::Register: Into<u64> + Copy + PartialEq,
+{
+    let v = c.get_register_always(name);
+    let empty = MinidumpContextValidity::Some(VecSet::new());
+    assert!(c.get_register(name, &empty).is_none());
+    let vc = set1(canon);
+    assert!(c.get_register(name, &vc) == Some(v));
+    assert!(c.get_register(canon, &vc) == Some(v));
+    let vn = set1(name);
+    assert!(c.get_register(name, &vn) == Some(v));
+    assert!(c.get_register(canon, &vn) == Some(v));
+    let vo = set1(other);
+    assert!(c.get_register(name, &vo).is_none());
+    // the type-erased dispatcher agrees
+    let mc = MinidumpContext { raw: wrap(c.clone()), valid: vc };
+    assert!(mc.get_register(name) == Some(v.into()));
+    assert!(mc.get_register(other).is_none());
+    assert!(mc.get_register_always(name) == v.into());
+    std::mem::forget(mc);
+    std::mem::forget(vn);
+    std::mem::forget(vo);
+    std::mem::forget(empty);
 }
 
 fn spec_index<const N: usize>(spec: &[(&'static str, usize); N], name: &str) -> usize {
